@@ -10,7 +10,8 @@ KW = {"upper": str.upper, "lower": str.lower}
 
 
 class Gen:
-    def __init__(self, seed):
+    def __init__(self, seed, deep=False):
+        self.deep = deep          # the "deep nesting" designs: chains of labelled statements, end names often left out
         self.r = random.Random(seed)
         self.case = self.r.choice(["upper", "lower", "lower"])
         self.ind = self.r.choice(["  ", "    ", " "])
@@ -50,7 +51,10 @@ class Gen:
         i = self.ind * lvl
         out = []
         for _ in range(r.randrange(1, 4)):
-            kind = r.choice(["assign", "assign", "if", "case", "loop", "var", "null", "call", "wait", "assert"]) if depth < 2 else "assign"
+            kind = r.choice(["assign", "assign", "if", "case", "loop", "var", "null", "call", "wait", "assert"] + (["nestloop"] if self.deep and depth == 0 else [])) if depth < 2 else "assign"
+            if kind == "nestloop":
+                out += self.nest_loops(lvl, r.randrange(3, 5))
+                continue
             if kind == "assign":
                 out.append("%s%s%s<=%s%s;%s" % (i, r.choice(["q", "y", "cnt"]), self.sp(), self.sp(), self.expr(), self.cmt()))
             elif kind == "var":
@@ -90,6 +94,38 @@ class Gen:
                 out.append("")
         return out
 
+    def nest_blocks(self, lvl, n):
+        """n labelled blocks inside each other; the name after 'end block' is left out at random"""
+        r = self.r
+        i = self.ind * lvl
+        lab = self.name("blk")
+        out = ["%s%s%s:%s%s%s" % (i, lab, self.sp(), self.sp(), self.k("block"), "" if r.random() < 0.6 else " " + self.k("is"))]
+        out.append("%s%s%s s_%d : std_logic;" % (i, self.ind, self.k("signal"), self.n))
+        out.append("%s%s" % (i, self.k("begin")))
+        out.append("%s%sy%s<=%s%s;" % (i, self.ind, self.sp(), self.sp(), self.expr()))
+        if n > 1:
+            out += self.nest_blocks(lvl + 1, n - 1)
+            if r.random() < 0.5:
+                out += self.nest_blocks(lvl + 1, max(1, n - 2))
+        else:
+            out += self.process(lvl + 1)
+        out.append("%s%s %s%s;" % (i, self.k("end"), self.k("block"), "" if r.random() < 0.6 else " " + lab))
+        return out
+
+    def nest_loops(self, lvl, n):
+        """n labelled loops inside each other (for / while / plain), 'end loop' mostly without the name"""
+        r = self.r
+        i = self.ind * lvl
+        lab = self.name("lp")
+        head = r.choice(["%s i%d %s 0 %s 3 %s" % (self.k("for"), n, self.k("in"), self.k("to"), self.k("loop")), "%s cnt < 3 %s" % (self.k("while"), self.k("loop")), self.k("loop")])
+        out = ["%s%s%s:%s%s" % (i, lab, self.sp(), self.sp(), head)]
+        out.append("%s%sv%s:=%sv + 1;" % (i, self.ind, self.sp(), self.sp()))
+        if n > 1:
+            out += self.nest_loops(lvl + 1, n - 1)
+        out.append("%s%s%s %s %s;" % (i, self.ind, self.k("exit"), lab if r.random() < 0.5 else "", "%s v > 2" % self.k("when")))
+        out.append("%s%s %s%s;" % (i, self.k("end"), self.k("loop"), "" if r.random() < 0.6 else " " + lab))
+        return out
+
     def process(self, lvl):
         r = self.r
         i = self.ind * lvl
@@ -108,7 +144,10 @@ class Gen:
         i = self.ind * lvl
         out = []
         for _ in range(r.randrange(2, 6)):
-            kind = r.choice(["process", "process", "assign", "cond", "sel", "inst", "gen", "block", "assert"]) if depth < 2 else "assign"
+            kind = r.choice(["process", "process", "assign", "cond", "sel", "inst", "gen", "block", "assert"] + (["nest", "nest"] if self.deep and depth == 0 else [])) if depth < 2 else "assign"
+            if kind == "nest":
+                out += self.nest_blocks(lvl, r.randrange(3, 5))
+                continue
             if kind == "process":
                 out += self.process(lvl)
             elif kind == "assign":
@@ -191,5 +230,8 @@ class Gen:
 
 
 def designs(n, base_seed=777):
-    """the fixed second corpus: n generated designs, deterministic"""
-    return [("generated/design_%03d.vhd" % k, Gen(base_seed + k).design()) for k in range(n)]
+    """the fixed second corpus: n generated designs, deterministic; every fifth one more is a "deep nesting" design (chains of
+    3-4 labelled blocks / loops inside each other with the optional end names mostly left out)"""
+    out = [("generated/design_%03d.vhd" % k, Gen(base_seed + k).design()) for k in range(n)]
+    out += [("generated/nested_%03d.vhd" % k, Gen(5000 + base_seed + k, deep=True).design()) for k in range(max(4, n // 5))]
+    return out
